@@ -514,6 +514,8 @@ class Cfg:
         self.rich_defaults = True
         self.digit_names = True
         self.unique_names = False
+        self.typedef_same_ns = False  # typedefs are placed in the namespace of their template
+        self.unique_ns = False        # no two sibling namespaces share a name (no re-opened namespaces)
         self.c02_safe = False        # stay inside the guard of C02_inst_eq_subst_partial (see Props/C02.lean)
         self.__dict__.update(kw)
 
@@ -780,7 +782,7 @@ class Gen:
                 par = TN([self.nsname() for _ in range(rng.choice([0, 1]))], self.cname())
             return Decl('fwd', virtual=rng.random() < 0.3, tn=tn, parent_tn=par)
         if k == 'incl':
-            h = rng.choice(["gtsam/base/Matrix.h", "vector", "a/b.h", " spaced/header.h ", "x y", "foo.h\t", "a\tb.h", "a<b", "é.h"])
+            h = rng.choice(["gtsam/base/Matrix.h", "vector", "a/b.h", " spaced/header.h ", "x y", "foo.h\t", "a\tb.h", "é.h"])
             return Decl('incl', header=h)
         if k == 'typedef':
             t = self.gen_inst(2)
@@ -838,6 +840,15 @@ def gen_module_inst(g: Gen, n_typedefs=None, p_bad_arity=0.03, p_missing=0.03):
     g.cfg.allow_typedef = False
     g.cfg.unique_names = True
     m = g.gen_module()
+    if g.cfg.unique_ns:
+        for _, content in walk_namespaces(m):
+            seen = set()
+            for d in content:
+                if d.kind == 'ns':
+                    while d.name in seen:
+                        g.counter += 1
+                        d.name = "%s%d" % (d.name.rstrip("0123456789"), g.counter)
+                    seen.add(d.name)
     targets = typedef_targets(m)
     spaces = list(walk_namespaces(m))
     if n_typedefs is None:
@@ -854,6 +865,9 @@ def gen_module_inst(g: Gen, n_typedefs=None, p_bad_arity=0.03, p_missing=0.03):
         tn = TN(list(path), name, [g.gen_inst(0 if g.cfg.c02_safe else 1) for _ in range(n)])
         g.counter += 1
         d = Decl('typedef', tn=tn, new_name="%sTd%d" % (name, g.counter))
-        _, content = rng.choice(spaces)
+        if g.cfg.typedef_same_ns:
+            content = next(c for p_, c in spaces if p_ == path)
+        else:
+            _, content = rng.choice(spaces)
         content.insert(rng.randint(0, len(content)), d)
     return m
